@@ -26,6 +26,11 @@ def rand_doc(rng):
     if rng.random() < 0.7:
         pc = arts(rng.choice([0, 1, 2, 5]))
         doc["packages.conda"] = {k + ("" if k not in doc["packages"] else "x"): v for k, v in pc.items()}
+    if rng.random() < 0.5 and doc["packages"]:
+        # both formats of the same build, with different metadata (size / checksums differ in real repodata)
+        nm = next(iter(doc["packages"]))
+        base = nm[:-len(".tar.bz2")] if nm.endswith(".tar.bz2") else nm
+        doc.setdefault("packages.conda", {})[base + ".conda"] = {"name": "p", "size": rng.randrange(10**6), "sha256": "%064x" % rng.getrandbits(256)}
     if rng.random() < 0.5:
         doc["signatures"] = {"stale.tar.bz2": {gen.key(3).hex: {"signature": "00" * 64}}, **({next(iter(doc["packages"])): {"old": 1}} if doc["packages"] else {})}
     if rng.random() < 0.4:
